@@ -42,6 +42,8 @@ def select__attribute_reference_or_axis(self: XPathAxis, context: ta.ContextType
         -> Iterator[AttributeNode]:
     if context is None:
         raise self.missing_context()
+    elif isinstance(context.item, AttributeNode):
+        return  # the attribute axis of an attribute node is empty
 
     for _ in context.iter_attributes():
         yield from cast(Iterator[AttributeNode], self[0].select(context))
